@@ -50,8 +50,12 @@ New(sq, from) == SubSeq(sq, from + 1, Len(sq))
 
 \* first clause on which the logged step differs from the specification (with the value the
 \* specification expects), or <<"">> if none
+\* what the caller sees: emit() collects the awaitables that come back and so also gets a failure carried by one of them
+\* (c.soft: a generator-based coroutine node such as partition wraps what happens below it in a Future); collect.flush()
+\* drops what _emit returns, so only a failure raised synchronously reaches its caller (C16 speaks of emit)
+Raises(st, c) == IF st.ev = "flush" THEN c.fail ELSE c.fail \/ c.soft
 Verdict(st, c) ==
-    IF (c.fail \/ c.soft) # st.raised THEN <<"raised", c.fail \/ c.soft>>
+    IF Raises(st, c) # st.raised THEN <<"raised", Raises(st, c)>>
     ELSE IF Strip(c.dlog, Len(dlog)) # st.dlog THEN <<"deliveries", Strip(c.dlog, Len(dlog))>>
     ELSE IF New(c.elog, Len(elog)) # st.elog THEN <<"emissions", New(c.elog, Len(elog))>>
     \* (st.opq: nodes whose private state the adapter could not read -- not compared)
@@ -66,7 +70,7 @@ Verdict(st, c) ==
 NoMd(dl) == [i \in 1 .. Len(dl) |-> <<dl[i][1], dl[i][2], dl[i][3]>>]
 NoMdE(el) == [i \in 1 .. Len(el) |-> <<el[i][1], el[i][2]>>]
 AllClauses(st, c) ==
-    (IF (c.fail \/ c.soft) # st.raised THEN <<"raised">> ELSE <<>>)
+    (IF Raises(st, c) # st.raised THEN <<"raised">> ELSE <<>>)
     \o (IF NoMd(Strip(c.dlog, Len(dlog))) # NoMd(st.dlog) THEN <<"deliveries">>
         ELSE IF Strip(c.dlog, Len(dlog)) # st.dlog THEN <<"deliveries_md">> ELSE <<>>)
     \o (IF NoMdE(New(c.elog, Len(elog))) # NoMdE(st.elog) THEN <<"emissions">>
